@@ -24,6 +24,14 @@ def build_corpus(tier, rng):
     cands.append(("escaped", Item("E", [Variant("U", "unit", [], [tos("{{open")]), Variant("T", "tuple", [Field("u8")], [tos("close}}"), ser("c")]),
                                         Variant("N", "named", [Field("u8", "x")], [ser("{{both}}")]), Variant("P", "unit")])))
     cands.append(("escaped-deprecated", Item("E", [Variant("U", "unit", [], [tos("{{open")]), Variant("T", "tuple", [Field("u8")], [tos("close}}")])])))
+    # the EMPTY literal is a spelling like any other (the longest of [""] is "", not the identifier)
+    for st in (None, "snake_case", "UPPERCASE"):
+        cands.append(("empty-literal", Item("E", [Variant("NotSet", "unit", [], [ser("")]), Variant("Other", "tuple", [Field("u8")], [ser("o")]),
+                                                  Variant("Plain", "unit")], metas=[EM("sall", st)] if st else [])))
+        cands.append(("empty-literal", Item("E", [Variant("Plain", "unit"), Variant("Twice", "named", [Field("u8", "x")], [ser(""), ser("")])],
+                                            metas=[EM("sall", st)] if st else [])))
+        cands.append(("empty-literal", Item("E", [Variant("Tos", "unit", [], [tos(""), ser("t")]), Variant("Plain", "unit")],
+                                            metas=[EM("sall", st)] if st else [])))
     for st in G.STYLES:
         for rep in range(3 if thorough else 1):
             it = G.string_enum(rng, nvariants=rng.randint(4, 8), allow_style=False, custom_err=False)
